@@ -148,7 +148,13 @@ struct JSONUtils {
                             ++offset;
 
                             if ((length - offset) > SizeT{3}) {
-                                SizeT32 code = Digit::HexStringToNumber<SizeT32>((content + offset), SizeT{4});
+                                SizeT   hex_length = 0;
+                                SizeT32 code = Digit::HexStringToNumber<SizeT32>((content + offset), hex_length, SizeT{4});
+
+                                if (hex_length != SizeT{4}) {
+                                    return 0;
+                                }
+
                                 offset += SizeT{4};
                                 offset2 = offset;
 
@@ -161,9 +167,14 @@ struct JSONUtils {
                                 if ((length - offset) > SizeT{5}) {
                                     code = (code ^ 0xD800U) << 10U;
                                     offset += SizeT{2};
+                                    hex_length = 0;
 
-                                    code += Digit::HexStringToNumber<SizeT32>((content + offset), SizeT{4}) & 0x3FFU;
+                                    code += Digit::HexStringToNumber<SizeT32>((content + offset), hex_length, SizeT{4}) & 0x3FFU;
                                     code += 0x10000U;
+
+                                    if (hex_length != SizeT{4}) {
+                                        return 0;
+                                    }
 
                                     Unicode::ToUTF<Char_T>(code, stream);
 
